@@ -134,7 +134,7 @@ def str_value(avoid: frozenset = frozenset()):
         st.sampled_from(["", " ", "// c", "===END===", "---", "A::B", "[a,b]", "60%", "a\\nb", "tab\there", "x\ny",
                          "say \"hi\"", "back\\slash", "#tag", "a -> b", "a vs b", "A+B", "p|q", "x & y", "k::v",
                          "```", "$", "§", "<x>", "{y}", "a,b", "trailing ", " leading", "café", "é",
-                         "\U0001F600 smile", "ünïcödé"]).map(S("special")),
+                         "\U0001F600 smile", "ünïcödé", "//x", "//cdn.example.com/lib.js", "/usr/bin", "./x", "--flag", "-x"]).map(S("special")),
         hostile.map(S("hostile")), hostile.map(S("hostile")),
         nearbare().map(S("nearbare")), nearbare().map(S("nearbare")),
     ]
@@ -251,8 +251,12 @@ def document(depth: int = 3, avoid=frozenset(), zones: bool = True, comments: bo
              frontmatter: bool = True, sentinel: bool = True, meta_nested: bool = True, empty_containers: bool = True,
              meta_zones: bool = False):
     mval = value(1, avoid, meta_zones, True)
-    nested = st.lists(st.tuples(ident(6), value(1, avoid, False, False)).map(list), min_size=1, max_size=3,
-                      unique_by=lambda kv: kv[0]).map(lambda kv: {"nested": kv})
+    # children of a nested META block: any value, or (one time in three) one of the "nothing-like" values that code tends
+    # to confuse with absent (null, "", 0, 0.0, false, []), so that blocks holding only such values are generated
+    nothing = st.sampled_from([{"v": "null"}, {"v": "str", "s": "", "cls": "special"}, {"v": "int", "i": "0"}, {"v": "float", "f": "0.0"},
+                               {"v": "bool", "b": False}, {"v": "list", "items": []}])
+    nkids = lambda vs: st.lists(st.tuples(ident(6), vs).map(list), min_size=1, max_size=3, unique_by=lambda kv: kv[0]).map(lambda kv: {"nested": kv})
+    nested = st.one_of(nkids(value(1, avoid, False, False)), nkids(value(1, avoid, False, False)), nkids(nothing))
     mitem = st.tuples(st.one_of(ident(7), st.sampled_from(["TYPE", "VERSION", "STATUS", "CONTRACT"])),
                       st.one_of(mval, mval, mval, nested) if meta_nested else mval).map(list)
     meta = st.lists(mitem, max_size=4, unique_by=lambda kv: kv[0])
